@@ -286,3 +286,40 @@ def shrink(vh, workdir, case, still_bad, budget=150):
                 break
             n = min(len(ops), n * 2)
     return dict(case, ops=ops)
+
+
+def search_helper_check(vh, workdir, seed, n_per_type=400):
+    """Direct differential test of <type>SearchGreaterThanOrEqualTo / LessThanOrEqualTo against the model's
+    search_ge / search_le on strictly ascending slices (incl. empty and one-element ones) and every kind of key
+    position (below, equal, between, above). Returns (queries, mismatches list)."""
+    import random
+    from . import shadow
+    rng = random.Random(seed * 13 + 1)
+    total, mism = 0, []
+    for typ in shadow.TYPE_NAMES:
+        U = 48
+        keys = gen.key_table(rng, typ, U)
+        lines = ["TYPE %s" % typ, "KEYS %s" % " ".join(keys)]
+        qs = []
+        for _ in range(n_per_type):
+            ln = rng.choice([0, 1, 1, 2, 2, 3, 4, 5, 7, 8, 15, 16, 17, 31, 32, 33])
+            vs = sorted(rng.sample(range(U), min(ln, U)))
+            k = rng.randrange(U) if not vs or rng.random() < 0.5 else rng.choice(vs)
+            tag = (lambda: rng.randrange(3)) if typ == "comparable" else (lambda: 0)
+            q = "Q %d.%d %s" % (k, tag(), " ".join("%d.%d" % (v, tag()) for v in vs))
+            qs.append(q)
+        path = os.path.join(workdir, "search.%s.txt" % typ)
+        open(path, "w").write("\n".join(lines + qs) + "\n")
+        go_out, mo_out = path + ".go", path + ".model"
+        r = common.run(["timeout", "300", vh, "search", path, go_out])
+        if r.returncode != 0:
+            raise RuntimeError("go harness (search) failed: " + (r.stdout + r.stderr)[-1500:])
+        r = common.run(["timeout", "300", SEQDRIVER, "search", path, mo_out])
+        if r.returncode != 0:
+            raise RuntimeError("model driver (search) failed: " + (r.stdout + r.stderr)[-1500:])
+        g, m = open(go_out).read().splitlines(), open(mo_out).read().splitlines()
+        total += len(qs)
+        for i, q in enumerate(qs):
+            if i >= len(g) or i >= len(m) or g[i] != m[i]:
+                mism.append(dict(type=typ, query=q, go=g[i] if i < len(g) else None, model=m[i] if i < len(m) else None))
+    return total, mism
